@@ -1,0 +1,51 @@
+// Copyright 2020-2025 Buf Technologies, Inc.
+//
+// Licensed under the Apache License, Version 2.0 (the "License");
+// you may not use this file except in compliance with the License.
+// You may obtain a copy of the License at
+//
+//      http://www.apache.org/licenses/LICENSE-2.0
+//
+// Unless required by applicable law or agreed to in writing, software
+// distributed under the License is distributed on an "AS IS" BASIS,
+// WITHOUT WARRANTIES OR CONDITIONS OF ANY KIND, either express or implied.
+// See the License for the specific language governing permissions and
+// limitations under the License.
+
+//go:build verif
+
+package buf
+
+// Contracts for the gocv verifier (see /verif/DESIGN.md), author ca-r4f. Comment-only.
+//
+// C20: the helpers of wrapError (the error -> message / status mapping at the top of the CLI, zz_verif_contracts_w.go). They
+// decide which errors get a special message instead of "Failure: <error>"; none of them may classify "no error", and the TLS
+// helper hands back an error that really is part of the failure (never a made-up one, never one for a nil error).
+//
+// isEmptyUnknownError: "returns true if the given error is non-nil, but has an empty message and an unknown error code":
+// never true for nil, and only for the code Unknown.
+//@ func isEmptyUnknownError(err) (r)
+//@   property C20
+//@   modifies heap
+//@   ensures never-for-nil: err == nil ==> !r
+//@   ensures only-for-code-unknown: r ==> connect.CodeOf(err) == connect.CodeUnknown
+//@   canary ensures !r
+//
+// wrappedTLSError: "returns an unwrapped TLS error or nil if the error is another type of error": a non-nil result is an
+// element of err's chain (errors.As), and there is none for a nil error.
+//@ func wrappedTLSError(err) (r)
+//@   property C20
+//@   modifies heap
+//@   ensures from-the-chain: r != nil ==> err != nil && inChain(err, r)
+//@   ensures nil-for-nil: err == nil ==> r == nil
+//@   canary ensures r == nil
+//
+// isPossibleNewCLIOldBSRError: an Unimplemented RPC always counts, Unknown only with the legacy 405 message, no other code does
+// (so e.g. Unauthenticated / Unavailable keep their own messages in wrapError).
+//@ func isPossibleNewCLIOldBSRError(connectErr) (r)
+//@   property C20
+//@   modifies heap
+//@   ensures unimplemented-counts: connectErr.Code() == connect.CodeUnimplemented ==> r
+//@   ensures no-other-code: connectErr.Code() != connect.CodeUnknown && connectErr.Code() != connect.CodeUnimplemented ==> !r
+//@   canary ensures connectErr.Code() == connect.CodeUnknown ==> r
+//@   canary ensures connectErr.Code() == connect.CodeUnknown ==> !r
